@@ -415,7 +415,6 @@ def _EvalScript(stack, scriptIn, txTo, inIdx, flags=()):
 
             elif fExec:
                 stack.append(sop_data)
-                continue
 
         elif fExec or (OP_IF <= sop <= OP_ENDIF):
 
